@@ -61,6 +61,9 @@ CXX_GLOBAL_STATE = {"rand", "srand", "strtok", "setlocale", "localeconv", "geten
                     "localtime", "tmpnam", "set_terminate", "set_new_handler", "set_unexpected", "global", "sync_with_stdio",
                     "mbrtowc", "wcrtomb", "mbtowc", "wctomb", "mblen"}
 
+# external objects the headers may name: the standard streams (every stdio call locks the FILE)
+EXT_VARS_OK = {"stdout": "FILE locked per call (MT-Safe)", "stderr": "FILE locked per call (MT-Safe)", "stdin": "FILE locked per call (MT-Safe)"}
+
 FN_KINDS = {"FunctionDecl", "CXXMethodDecl", "CXXConstructorDecl", "CXXDestructorDecl", "CXXConversionDecl", "CXXDeductionGuideDecl"}
 VAR_KINDS = {"VarDecl", "VarTemplateSpecializationDecl", "VarTemplatePartialSpecializationDecl", "DecompositionDecl"}
 CTX_KINDS = {"NamespaceDecl", "CXXRecordDecl", "ClassTemplateSpecializationDecl", "ClassTemplatePartialSpecializationDecl", "EnumDecl"}
@@ -187,6 +190,7 @@ class Walker:
         self.file = None; self.line = 0
         self.statics = {}        # (qualified name, file, line) -> record
         self.lib_fn_ids = set()
+        self.lib_var_ids = set()
         self.refs = {}           # decl id -> dict(name, users=set of file:line)
         self.ctx = []
         self.fn_depth = 0
@@ -212,6 +216,8 @@ class Walker:
             if k == "loc":
                 self.loc(v)
                 # the declaration's own position is now known
+                if kind in VAR_KINDS or kind in ("ParmVarDecl", "BindingDecl"):
+                    if record_all or self.is_lib_file(self.file): self.lib_var_ids.add(node.get("id"))
                 if kind in VAR_KINDS: self.var(node, record_all)
                 if kind in FN_KINDS:
                     if record_all or self.is_lib_file(self.file): self.lib_fn_ids.add(node.get("id"))
@@ -228,6 +234,8 @@ class Walker:
         if kind == "DeclRefExpr":
             rd = node.get("referencedDecl") or {}
             if rd.get("kind") in FN_KINDS: self.ref(rd.get("id"), rd.get("name", "?"))
+            elif rd.get("kind") == "VarDecl" and not top_const(rd.get("type", {}).get("qualType", "")):
+                self.ref(rd.get("id"), rd.get("name", "?"), var=True)       # constants (numeric_limits<>::digits, is_signed<>::value ...) are not state
         elif kind == "MemberExpr":
             rid = node.get("referencedMemberDecl")
             if rid and node.get("type", {}).get("qualType") == "<bound member function type>":
@@ -241,9 +249,9 @@ class Walker:
         if pushed: self.ctx.pop()
         if fn: self.fn_depth -= 1
 
-    def ref(self, rid, name):
+    def ref(self, rid, name, var=False):
         if not rid or not self.is_lib_file(self.file): return
-        r = self.refs.setdefault(rid, dict(name=name, users=set()))
+        r = self.refs.setdefault(rid, dict(name=name, users=set(), var=var))
         if len(r["users"]) < 4: r["users"].add("%s:%d" % (os.path.basename(self.file or "?"), self.line))
 
     def var(self, node, record_all):
@@ -256,7 +264,7 @@ class Walker:
         constexpr = bool(node.get("constexpr"))
         const = constexpr or top_const(qt)
         name = "::".join(self.ctx + [node.get("name", "(unnamed)")])
-        where = "function-local" if self.fn_depth > 0 else ("thread" if tls else "namespace/class")
+        where = ("function-local" if self.fn_depth > 0 else "namespace/class") + (" thread_local" if tls else "")
         key = (name, self.file, self.line)
         old = self.statics.get(key)
         rec = dict(name=name, file=self.file or "?", line=self.line, type=qt, isConst=const, constexpr=constexpr,
@@ -310,7 +318,7 @@ def extract():
         for m in re.finditer(rb'"id": "(0x[0-9a-f]+)",\n +"kind": "\w+Decl",\n +"loc"', buf):
             index.setdefault(m.group(1), m.start())
         for rid, r in w.refs.items():
-            if rid in w.lib_fn_ids: continue
+            if rid in w.lib_fn_ids or rid in w.lib_var_ids: continue
             pos = index.get(rid.encode(), -1); where = "unknown"
             top = bisect.bisect_right(starts, pos) - 1 if pos >= 0 else None
             name = r["name"]
@@ -324,7 +332,11 @@ def extract():
                 else: where = "libc"
             bare = name[len("__builtin_"):] if name.startswith("__builtin_") else name
             if name.startswith("__builtin_"): where = "builtin"
-            if where == "libstdc++":
+            if r.get("var"):
+                # a variable that is not the library's own: a libc / libstdc++ global object
+                ok = name in EXT_VARS_OK and where in ("libc", "libstdc++"); note = EXT_VARS_OK.get(name, "external variable outside the allow-list")
+                where += " variable"
+            elif where == "libstdc++":
                 ok = bare not in CXX_GLOBAL_STATE; note = "libstdc++: operates on its arguments ([res.on.data.races])" if ok else "global state"
             elif where in ("libc", "builtin"):
                 ok = bare in LIBC_MT_SAFE or name.startswith("operator") or (where == "builtin" and bare not in CXX_GLOBAL_STATE and not bare.startswith("str"))
@@ -351,14 +363,19 @@ def render(data):
            "-- the allow-list of tools/gen_statics.py (glibc manual: MT-Safe / MT-Safe locale; libstdc++: [res.on.data.races]).",
            "namespace StVerif.Generated", "",
            "structure StaticVar where", "  name : String", "  file : String", "  line : Nat", "  type : String",
-           "  scope : String", "  isConst : Bool", "  deriving Repr, DecidableEq", "",
+           "  scope : String", "  isConst : Bool", "  threadLocal : Bool", "  deriving Repr, DecidableEq", "",
            "structure ExtCall where", "  name : String", "  origin : String", "  note : String", "  deriving Repr, DecidableEq", "",
            "def publicHeaders : List String := [%s]" % ", ".join(lean_str(h) for h in data["headers"]), "",
            "def statics : List StaticVar := ["]
-    rows = ["  { name := %s, file := %s, line := %d, type := %s, scope := %s, isConst := %s }" % (
-        lean_str(r["name"]), lean_str(r["file"]), r["line"], lean_str(r["type"]), lean_str(r["scope"]), "true" if r["isConst"] else "false")
+    rows = ["  { name := %s, file := %s, line := %d, type := %s, scope := %s, isConst := %s, threadLocal := %s }" % (
+        lean_str(r["name"]), lean_str(r["file"]), r["line"], lean_str(r["type"]), lean_str(r["scope"]), "true" if r["isConst"] else "false",
+        "true" if r.get("tls") else "false")
         for r in data["statics"]]
     out.append(",\n".join(rows)); out.append("]"); out.append("")
+    # the offenders by name, so that a failing proof names them in the build log
+    mut = [r for r in data["statics"] if not r["isConst"] and not r.get("tls")]
+    out += ["/-- the statics that are neither immutable nor thread-local (must be empty) -/",
+            "def mutableStatics : List String := [%s]" % ", ".join(lean_str("%s : %s (%s:%d)" % (r["name"], r["type"], r["file"], r["line"])) for r in mut), ""]
     def call_rows(cs):
         return ",\n".join("  { name := %s, origin := %s, note := %s }" % (lean_str(c["name"]), lean_str(c["origin"]), lean_str(c["note"])) for c in cs)
     safe = [c for c in data["calls"] if c["safe"]]; unsafe = [c for c in data["calls"] if not c["safe"]]
@@ -386,12 +403,13 @@ def main():
         if changed:
             os.makedirs(os.path.dirname(OUT), exist_ok=True)
             with open(OUT, "w") as f: f.write(text)
-        mut = [r for r in data["statics"] if not r["isConst"]]
+        mut = [r for r in data["statics"] if not r["isConst"] and not r.get("tls")]
         uns = [c for c in data["calls"] if not c["safe"]]
         for r in mut: log("gen_statics: MUTABLE static %s (%s:%d) : %s" % (r["name"], r["file"], r["line"], r["type"]))
         for c in uns: log("gen_statics: call outside the MT-Safe allow-list: %s [%s] used at %s" % (c["name"], c["origin"], ",".join(c["users"])))
-        print("gen_statics: %s statics=%d mutable=%d ext_calls=%d unsafe=%d changed=%s status=0" % (
-            how, len(data["statics"]), len(mut), len(data["calls"]), len(uns), "Statics" if changed else "-"))
+        detail = "".join(" MUTABLE %s (%s:%d)" % (r["name"], r["file"], r["line"]) for r in mut[:4]) + "".join(" UNSAFE-CALL %s [%s]" % (c["name"], c["origin"]) for c in uns[:4])
+        print("gen_statics: %s statics=%d mutable=%d ext_calls=%d unsafe=%d changed=%s status=0%s" % (
+            how, len(data["statics"]), len(mut), len(data["calls"]), len(uns), "Statics" if changed else "-", detail))
         return 0
     except Exception as e:
         log("gen_statics: translator could not run: %r" % (e,))
